@@ -643,4 +643,4 @@ def run(ctx):
             'classes, iteration of set-valued names (with consumer '
             'analysis), and writes to class attributes or module globals '
             'from function bodies (registration-time constructs listed with '
-            'reasons).')
+            'reasons). Also: class-level mutables mutated through instances, call-valued default arguments, functools caches on numeric or object parameters.')
